@@ -7,6 +7,7 @@ import (
 	"fmt"
 	"regexp"
 	"strings"
+	"sync"
 	"time"
 
 	"github.com/scrapli/scrapligo/driver/netconf"
@@ -198,8 +199,22 @@ func genNC(prop string, r *sim.Rng) *ncCase {
 		c.SessionID = "77"
 	}
 	c.Echo = r.Chance(1, 3)
-	if prop == "C08" || prop == "C03" {
-		c.Coalesce = []int{0, 0, 1, 1, 2}[r.Intn(5)]
+	if prop == "C02" {
+		c.Coalesce = []int{0, 1, 3, 3}[r.Intn(4)]
+	}
+	if prop == "C08" || prop == "C03" || prop == "C02" {
+		if prop != "C02" {
+			c.Coalesce = []int{0, 0, 1, 1, 2, 3}[r.Intn(6)]
+		}
+		if c.Coalesce == 3 {
+			// the whole exchange in ONE read: echo of the request, the reply, the echo of the returns -- and
+			// then nothing (a slow reader behind an echoing transport and a fast server).  Replies on time only.
+			c.Echo = true
+			for i := range c.Ops {
+				c.Ops[i].Beh = 0
+			}
+			c.Segs, c.DefSeg = nil, 0
+		}
 		if c.Coalesce == 2 {
 			// two-replies-in-one-read is about late replies; with an echoing transport on top, the echo of
 			// the client's hello can share a buffer with later messages as well (same root cause as F26,
@@ -214,6 +229,16 @@ func genNC(prop string, r *sim.Rng) *ncCase {
 	switch prop {
 	case "C03":
 		c.Ops = genNCOps(r, 1+r.Intn(12), true)
+	case "C02":
+		c.Ops = genNCOps(r, 1+r.Intn(6), false)
+		for i := range c.Ops {
+			if r.Chance(1, 3) {
+				c.Ops[i].Body = "<data>" + r.Pick(ncArgPool) + "</data>"
+			}
+			if r.Chance(1, 6) {
+				c.Ops[i].Body = "<rpc-error><error-severity>error</error-severity><error-message>no</error-message></rpc-error>"
+			}
+		}
 	case "C08":
 		n := 1 + r.Intn(25)
 		c.Ops = genNCOps(r, n, false)
@@ -275,6 +300,11 @@ func genNC(prop string, r *sim.Rng) *ncCase {
 	if prop != "C08" {
 		// the message-id-split chunkings are C08's subject
 		c.ChunkMode = []int{0, 2, 4}[c.ChunkMode%3]
+	}
+	if c.Coalesce == 3 {
+		for i := range c.Ops {
+			c.Ops[i].Beh = 0
+		}
 	}
 	return c
 }
@@ -338,7 +368,7 @@ func (d ncDev) Feed(b []byte) [][]byte {
 			d.st.lateJoined[len(d.NCServer.Requests)-1] = true
 		}
 		out = append(out, sim.Atoms(m)...)
-		if co == 2 || (co == 1 && isEcho && len(msgs) > 1) {
+		if co == 2 || co == 3 || (co == 1 && isEcho && len(msgs) > 1) {
 			continue
 		}
 		out = append(out, nil) // message boundary marker (see msgBoundaryTransport)
@@ -592,8 +622,45 @@ func runNCCase(id string, c *ncCase) {
 	var outs []string
 	var late []int
 	firstOracle, firstSig := "", ""
+	// coalesce 3: reads are held from the start of each call until its writes are through
+	var holdMu sync.Mutex
+	holding := false
+	if c.Coalesce == 3 {
+		tr.ReadGate = func() {
+			for {
+				holdMu.Lock()
+				h := holding
+				holdMu.Unlock()
+				if !h {
+					return
+				}
+				time.Sleep(100 * time.Microsecond)
+			}
+		}
+	}
 	for i, o := range c.Ops {
 		tr.Mark('C')
+		if c.Coalesce == 3 {
+			time.Sleep(2 * time.Millisecond) // the reader is back in (or in front of) its gate
+			holdMu.Lock()
+			holding = true
+			holdMu.Unlock()
+			w0, _, _ := tr.Snapshot()
+			go func() {
+				// release once the frame and its return(s) have been written (or after 20 ms)
+				dl := time.Now().Add(20 * time.Millisecond)
+				for time.Now().Before(dl) {
+					if w, _, _ := tr.Snapshot(); len(w) >= len(w0)+2 {
+						break
+					}
+					time.Sleep(100 * time.Microsecond)
+				}
+				time.Sleep(time.Millisecond)
+				holdMu.Lock()
+				holding = false
+				holdMu.Unlock()
+			}()
+		}
 		r, err := callNC(d, o)
 		switch {
 		case err != nil && errClass(err) == "timeout":
